@@ -318,6 +318,7 @@ def run_check(prop_id, tier, seed, replay=None, workers=None, keep=False):
             "exhaustive": bool(getattr(mod, "EXHAUSTIVE", {}).get(tier, False)),
             "monitor_counters": dict(sorted(counters.items())),
             "distinct_seen": {k: len(v) for k, v in sorted(sets.items())},
+            "distinct_values_small_sets": {k: sorted(v) for k, v in sorted(sets.items()) if len(v) <= 12},
             "reach_guard": reach_rows,
             "anchored_lines": anchored_line_stats(anchors, executed),
             "workers": nw,
